@@ -69,6 +69,8 @@ type c05Instance struct {
 	tmpl *mustache.MustacheTemplate
 	vars *variables.VariableCollection
 	opts int
+	// set by run: the second pass over the rewound scanner object gave other tokens than the first
+	rescan string
 }
 
 func newC05Instance(kind string, opts int) *c05Instance {
@@ -168,7 +170,8 @@ func (in *c05Instance) run(st c05Step) (obs string) {
 					same = first[i].Type() == second[i].Type() && first[i].Value() == second[i].Value() && first[i].Line() == second[i].Line() && first[i].Column() == second[i].Column()
 				}
 				if !same {
-					obs += fmt.Sprintf(" | RESCAN-DIFFERS: second pass over the rewound scanner gives %d tokens", len(second))
+					in.rescan = fmt.Sprintf("second pass over the rewound scanner gives %d tokens, the first %d", len(second), len(first))
+					obs += " | rescan differs"
 				}
 			}
 		case "exprparser":
@@ -220,9 +223,10 @@ func checkC05(c c05Case) *evid.Fail {
 		// must not matter either
 		plain := st
 		plain.HasNext = 0
-		want := newC05Instance(c.Kind, c.Opts).run(plain)
-		if strings.Contains(want, "RESCAN-DIFFERS") {
-			return evid.F("rescan-differs:"+c.Kind, "%s instance, input %q: %s", c.Kind, st.Input, want)
+		fresh := newC05Instance(c.Kind, c.Opts)
+		want := fresh.run(plain)
+		if fresh.rescan != "" {
+			return evid.F("rescan-differs:"+c.Kind, "%s instance, input %q: %s; %s", c.Kind, st.Input, fresh.rescan, want)
 		}
 		if got != want {
 			var hist []string
